@@ -343,3 +343,44 @@ m("C16-meta-reassociation-still-rejected", "C16", "renderable/_types.py", "     
 m("C16-meta-default-optional", "C16", "renderable/_types.py", "                    name: namespace[name]\n                    for name in namespace.get(\"__annotations__\", ())", "                    name: namespace.get(name)\n                    for name in namespace.get(\"__annotations__\", ())")
 m("C16-meta-args-not-recorded", "C16", "renderable/_types.py", "                render_cls.Args = args_cls\n", "                pass\n")
 m("C16-meta-second-args-accepted", "C16", "renderable/_types.py", "                if render_cls.Args:\n                    raise RenderArgsError(", "                if render_cls.Args and False:\n                    raise RenderArgsError(")
+# ---- round 7: one mutant per clause added after the seventh round of independently seeded changes, plus harmless variants
+m("C10-del-closes-only-the-generator", "C10", "render/_iterator.py", "    def __del__(self) -> None:\n        try:\n            self.close()\n", "    def __del__(self) -> None:\n        try:\n            self._iterator.close()\n")
+m("C10-del-harmless", "C10", "render/_iterator.py", "    def __del__(self) -> None:\n        try:\n            self.close()\n        except AttributeError:\n            pass\n",
+  "    def __del__(self) -> None:\n        try:\n            self.close()\n        except AttributeError:\n            return None\n", expect="held")
+m("C08-args-of-a-subclass-accepted", "C08", "render/_iterator.py", "            if render_args.render_cls is render_cls\n", "            if issubclass(render_args.render_cls, render_cls)\n")
+m("C10-duration-check-before-closed-check", "C10", "render/_iterator.py",
+  "        if self._closed:\n            raise FinalizedIteratorError(\"This iterator has been finalized\") from None\n\n        if isinstance(duration, int) and duration <= 0:\n            raise arg_value_error_range(\"duration\", duration)\n",
+  "        if isinstance(duration, int) and duration <= 0:\n            raise arg_value_error_range(\"duration\", duration)\n\n        if self._closed:\n            raise FinalizedIteratorError(\"This iterator has been finalized\") from None\n")
+m("C15-size-stamp-before-the-query", "C15", "utils.py", "        # First try ioctl\n        buf = array(\"H\", [0, 0, 0, 0])\n", "        _cell_size_cache[:2] = terminal_size\n        # First try ioctl\n        buf = array(\"H\", [0, 0, 0, 0])\n",
+  more=[("        _cell_size_cache[:] = terminal_size + cell_size\n", "        _cell_size_cache[2:] = cell_size\n")])
+m("C15-cache-zeroed-before-the-query-harmless", "C15", "utils.py", "        # First try ioctl\n        buf = array(\"H\", [0, 0, 0, 0])\n", "        _cell_size_cache[:] = (0,) * 4\n        # First try ioctl\n        buf = array(\"H\", [0, 0, 0, 0])\n", expect="held")
+m("C06-old-pad-width-only-with-check-size", "C06", "image/common.py", "        if pad_width > terminal_width:\n", "        if check_size and pad_width > terminal_width:\n")
+m("C06-old-pad-height-not-validated", "C06", "image/common.py", "        if animation and pad_height > terminal_height:\n", "        if animation and check_size and pad_height > terminal_height:\n")
+m("C07-iterm2-handler-only-on-a-tty", "C07", "image/iterm2.py", "        print(ctlseqs.ST * 2, end=\"\", flush=True)\n", "        sys.stdout.isatty() and print(ctlseqs.ST * 2, end=\"\", flush=True)\n")
+m("C18-view-recorded-without-its-rows", "C18", "widget/_urwid.py", "image_cviews.add((canv, row, col, *trim, cols, rows))", "image_cviews.add((canv, row, col, *trim, cols))")
+m("C18-view-recorded-without-its-trim", "C18", "widget/_urwid.py", "image_cviews.add((canv, row, col, *trim, cols, rows))", "image_cviews.add((canv, row, col, cols, rows))")
+m("C18-view-key-reordered-harmless", "C18", "widget/_urwid.py", "image_cviews.add((canv, row, col, *trim, cols, rows))", "image_cviews.add((canv, col, row, cols, rows, *trim))", expect="held")
+m("C18-noncomposite-deletes-by-widget", "C18", "widget/_urwid.py", "            if self._ti_image_cviews:\n                self.clear_images()\n",
+  "            if self._ti_image_cviews:\n                self.clear_images(*{canv.widget_info[0] for canv, *_ in self._ti_image_cviews})\n")
+m("C20-anim-limit-written-to-the-class's-own-metaclass", "C20", "image/iterm2.py", "        __class__._native_anim_max_bytes = max_bytes\n", "        type(self)._native_anim_max_bytes = max_bytes\n")
+m("C16-or-same-class-set-shortcut", "C16", "renderable/_types.py", "            other_render_cls = other.render_cls\n            if issubclass(self_render_cls, other_render_cls):",
+  "            other_render_cls = other.render_cls\n            if self_render_cls is other_render_cls:\n                return +self\n            if issubclass(self_render_cls, other_render_cls):")
+m("C16-update-fields-through-to_render_args", "C16", "renderable/_types.py",
+  "        return RenderArgs(\n            self.render_cls,\n            self,\n            *((self[render_cls].update(**fields),) if render_cls else namespaces),\n        )",
+  "        if render_cls:\n            return self[render_cls].update(**fields).to_render_args(self.render_cls)\n        return RenderArgs(self.render_cls, self, *namespaces)")
+m("C16-update-split-harmless", "C16", "renderable/_types.py",
+  "        return RenderArgs(\n            self.render_cls,\n            self,\n            *((self[render_cls].update(**fields),) if render_cls else namespaces),\n        )",
+  "        if render_cls:\n            return RenderArgs(self.render_cls, self, self[render_cls].update(**fields))\n        return RenderArgs(self.render_cls, self, *namespaces)", expect="held")
+m("C02-source-info-popped", "C02", "image/common.py", "        if alpha is None or img.mode in {\"1\", \"L\", \"RGB\", \"HSV\", \"CMYK\"}:\n            convert_resize_img(\"RGB\")\n",
+  "        if alpha is None or img.mode in {\"1\", \"L\", \"RGB\", \"HSV\", \"CMYK\"}:\n            img.info.pop(\"transparency\", None)\n            convert_resize_img(\"RGB\")\n")
+m("C02-blend-only-if-some-pixel-is-transparent", "C02", "image/common.py", "                        a = [0 if val < alpha else 255 for val in a]\n", "                        a = [0 if val < alpha else 255 for val in a]\n                        round_alpha = 0 in a\n")
+m("C11-iterm2-anim-fallback-to-lines", "C11", "image/iterm2.py", "            if render_method == LINES:\n                raw_image = io.BytesIO(img.tobytes())", "            if render_method != WHOLE:\n                raw_image = io.BytesIO(img.tobytes())",
+  more=[("        if render_method == LINES:\n            # NOTE: It's more efficient", "        if render_method != WHOLE:\n            # NOTE: It's more efficient")])
+m("C03-iterm2-file-gate-animated-still", "C03", "image/iterm2.py", "            and not self._is_animated\n            and file_is_readable\n", "            and not frame\n            and file_is_readable\n")
+m("C03-get_chunked-fast-path-counts-bytes", "C03", "image/kitty.py", "    def get_chunked(self) -> str:\n        return \"\".join(self.get_chunks())\n",
+  "    def get_chunked(self) -> str:\n        if len(self.payload) <= 4096:\n            return KITTY_TRANSMISSION % (f\"{self.get_control_data()},m=0\", self.encode().decode(\"ascii\"))\n        return \"\".join(self.get_chunks())\n")
+m("C03-get_chunked-larger-chunks", "C03", "image/kitty.py", "        return \"\".join(self.get_chunks())\n", "        return \"\".join(self.get_chunks(8192))\n")
+m("C03-get_chunked-fast-path-counts-characters-harmless", "C03", "image/kitty.py", "    def get_chunked(self) -> str:\n        return \"\".join(self.get_chunks())\n",
+  "    def get_chunked(self) -> str:\n        if len(self.payload) <= 3072:\n            return KITTY_TRANSMISSION % (f\"{self.get_control_data()},m=0\", self.encode().decode(\"ascii\"))\n        return \"\".join(self.get_chunks())\n", expect="held")
+m("C01-forced-support-skips-is_supported", "C01", "image/common.py", "        if not (cls.is_supported() or cls._forced_support):", "        if not (cls._forced_support or cls.is_supported()):")
+m("C01-auto-recognised-only-as-width", "C01", "image/common.py", "            if Size.AUTO in (width, height):\n                width = height = (", "            if width is Size.AUTO:\n                width = (")
